@@ -289,10 +289,15 @@ fn finalize_entry(fs: &Fs, entry: WorkingEntry, game: Game, emitter: &impl Emitt
 
     // More defaults
     if let Some(img_width) = specs.img_width.into_option() {
-        specs.rt_width.set_soft_if_missing(u32::next_power_of_two(img_width));
+        // (no default if the next power of two does not fit in a u32)
+        if let Some(rt_width) = u32::checked_next_power_of_two(img_width) {
+            specs.rt_width.set_soft_if_missing(rt_width);
+        }
     }
     if let Some(img_height) = specs.img_height.into_option() {
-        specs.rt_height.set_soft_if_missing(u32::next_power_of_two(img_height));
+        if let Some(rt_height) = u32::checked_next_power_of_two(img_height) {
+            specs.rt_height.set_soft_if_missing(rt_height);
+        }
     }
 
     // Now check that rt_width and rt_height were filled.
@@ -558,7 +563,7 @@ impl Entry {
             (&mut opt_rt_height, opt_img_height),
         ] {
             if let Some(img_dim) = opt_img_dim {
-                *opt_rt_dim = opt_rt_dim.filter(|&x| x != u32::next_power_of_two(img_dim));
+                *opt_rt_dim = opt_rt_dim.filter(|&x| Some(x) != u32::checked_next_power_of_two(img_dim));
             }
         }
 
@@ -1142,7 +1147,7 @@ fn gather_script_ids(ast: &ast::ScriptFile, ctx: &mut CompilerContext) -> Result
         match &item.value {
             &ast::Item::Script { number, ref ident, .. } => {
                 let script_id = number.unwrap_or(sp!(ident.span => next_auto_script));
-                next_auto_script = script_id.value + 1;
+                next_auto_script = script_id.value.wrapping_add(1);
 
                 // give a better error on redefinitions than the generic "ambiguous auto const" message
                 match script_ids.entry(ident.value.clone()) {
